@@ -439,7 +439,7 @@ def match_patterns(qf, pats, idx, apps, by_arr, singles, cap=400, priority=None)
             if len(vs) < qf.arity and not (vs & covered):
                 chosen.append(vs)
                 covered |= vs
-        if chosen and any(len(vs) > 1 for vs in chosen):
+        if FLATTEN[0] and chosen and any(len(vs) > 1 for vs in chosen):
             glists = [groups[vs] for vs in chosen]
             for v in range(qf.arity):
                 if v not in covered:
